@@ -255,6 +255,7 @@ class Slot:
         self.packed_opt = None     # the explicit [packed=..] option, if any
         self.implicit = False      # proto3 implicit presence: a conforming encoder omits the default
         self.label = None
+        self.utf8 = False
 
     def numbers(self):
         return [m.number for m in self.members] if self.kind == "u" else [self.number]
@@ -352,6 +353,7 @@ def load_corpus(proto_dir=None, wrappers=True):
             md.file, md.wrapper, md.rust_path = "-", rust, rust
             if ty is not None:
                 sl = Slot("w", "value"); sl.number = 1; sl.ty = ty; sl.implicit = True
+                sl.utf8 = (rust == "String")      # std String: the only place where UTF-8 is validated
                 md.slots.append(sl)
             md.finish()
             corpus.append(md)
@@ -566,8 +568,8 @@ def ref_records(msg, value, rng=None, style=None):
     def enc_msg(ref):
         return lambda v: ref_encode(ref, v, rng, st)
 
-    def one(gid, number, ty, v, ref=None):
-        if ty == "message" and st.split and rng.random() < st.split and len(v) > 1:
+    def one(gid, number, ty, v, ref=None, singular=True):
+        if ty == "message" and singular and st.split and rng.random() < st.split and len(v) > 1:
             # the same embedded message as two records, each carrying part of the slots
             a, b = split_value(ref, v, rng)
             for part in (a, b):
@@ -592,7 +594,7 @@ def ref_records(msg, value, rng=None, style=None):
         elif sl.kind == "r":
             if not _packable(sl.ty):
                 for x in v:
-                    one(si, sl.number, sl.ty, x, sl.ref)
+                    one(si, sl.number, sl.ty, x, sl.ref, singular=False)
                 continue
             mode = st.packing
             if mode == "decl":
@@ -840,6 +842,11 @@ def _dec_into(msg, value, rd, c):
                 value[si] = _dec_sub(sl.ref, base, wt, rd, c)
             else:
                 value[si] = _dec_scalar(sl.ty, wt, rd)
+                if sl.utf8:
+                    try:
+                        value[si].decode("utf-8")
+                    except UnicodeDecodeError:
+                        raise RefError("utf8", "invalid UTF-8 in a string")
         elif sl.kind == "r":
             if sl.ty == "message":
                 value[si].append(_dec_sub(sl.ref, _dflt(sl.ref), wt, rd, c))
@@ -961,14 +968,14 @@ def ref_merge_spec(msg, x, y, omit_defaults=False):
     """value-level statement of protobuf merge: the value of decode(enc(x) ++ enc(y)).
     omit_defaults=False: every bare ('s') field of y is on the wire (what pilota's encoder does, and
     what proto2 `required` demands), so y's value wins; True: a conforming proto3 encoder left the
-    implicit-presence fields of y that hold the default off the wire, so x's value stays.
-    Wrapper pseudo messages always omit the default."""
+    implicit-presence fields of y that hold the default off the wire, so x's value stays (this is
+    also what pilota's encoder does for the wrapper pseudo messages)."""
     out = []
     for sl, a, b in zip(msg.slots, x, y):
         if sl.kind in ("s", "w"):
             if sl.ty == "message":
                 out.append(ref_merge_spec(sl.ref, a, b, omit_defaults))
-            elif (sl.kind == "w" or (omit_defaults and sl.implicit)) and b == scalar_default(sl.ty):
+            elif omit_defaults and sl.implicit and b == scalar_default(sl.ty):
                 out.append(a)
             else:
                 out.append(b)
@@ -1033,3 +1040,1647 @@ def _cmp(a, b, path):
 def _short(x):
     s = repr(x)
     return s if len(s) < 80 else s[:77] + "..."
+
+
+# ======================================================================================
+# 4. seeded value generator
+# ======================================================================================
+
+_I32 = [0, 1, -1, 2, 63, 64, 127, 128, 255, 300, 16383, 16384, -128, -129, (1 << 31) - 1, -(1 << 31), 1 << 30, -12345678]
+_I64 = _I32 + [1 << 31, -(1 << 31) - 1, 1 << 32, (1 << 35) - 1, 1 << 35, (1 << 63) - 1, -(1 << 63), 1 << 62, -(1 << 62) - 1, 1 << 56, (1 << 56) - 1]
+_U32 = [0, 1, 2, 127, 128, 255, 256, 16383, 16384, 2097151, 2097152, (1 << 28) - 1, 1 << 28, (1 << 31) - 1, 1 << 31, M32]
+_U64 = _U32 + [1 << 32, (1 << 35) - 1, 1 << 35, (1 << 49), (1 << 56) - 1, 1 << 56, (1 << 63) - 1, 1 << 63, M64, M64 - 1]
+_F32 = [0, 0x80000000, 0x7f800000, 0xff800000, 0x7fc00000, 0x7fa00000, 0xffc00001, 0x7f800001, 1, 0x80000001,
+        0x007fffff, 0x00800000, 0x7f7fffff, 0xff7fffff, 0x3f800000, 0xbf800000, 0x3fc00000, 0x3dcccccd, 0x4b800000,
+        0x4b7fffff, 0x5a800000, 0x322bcc77, 0x501502f9, 0x7149f2ca, 0x0da24260]
+_F64 = [0, 1 << 63, 0x7ff0000000000000, 0xfff0000000000000, 0x7ff8000000000000, 0x7ff4000000000000,
+        0xfff8000000000001, 0x7ff0000000000001, 1, (1 << 63) | 1, 0x000fffffffffffff, 0x0010000000000000,
+        0x7fefffffffffffff, 0xffefffffffffffff, 0x3ff0000000000000, 0xbff0000000000000, 0x3ff8000000000000,
+        0x3fb999999999999a, 0x4340000000000000, 0x433fffffffffffff, 0x4341c37937e08000, 0x3eb0c6f7a0b5ed8d,
+        0x44b52d02c7e14af6, 0x54b249ad2594c37d, 0x2b2bff2ee48e0530]
+_STR = ["", "a", "abc", "hello world", "héllo wörld ✓", "quote\" back\\slash 'single'", "tab\tnl\ncr\r nul\0 del\x7f esc\x1b",
+        "{ a: 1, b: [2, 3] }", "Some(None)", "b\"x\"", "​́x́ ‮ rtl", "\U0001f600 emoji \U0001f9d1‍\U0001f4bb",
+        "﻿￿ ퟿ ", " ­\u0085", "NaN", "inf", "x" * 127, "y" * 128, "é" * 64, "z" * 300, ", ", ": ", "}", "0"]
+_BYTES = [b"", b"\x00", b"a", b"\xff", b"\x80\x00\x7f", bytes(range(256)), b"\"quoted\\\" \n\r\t\0", b"\xc3\x28\xff\xfe", b"x" * 127, b"y" * 128, b"\x01" * 300,
+          b"\x08\x01\x12\x00", b"\x0b\x0c"]
+
+
+def gen_scalar(ty, rng, enum=None):
+    r = rng.random()
+    if ty in ("int32", "sint32", "sfixed32"):
+        return rng.choice(_I32) if r < 0.7 else to_signed(rng.getrandbits(rng.choice([7, 14, 21, 28, 32])), 32)
+    if ty in ("int64", "sint64", "sfixed64"):
+        return rng.choice(_I64) if r < 0.7 else to_signed(rng.getrandbits(rng.choice([7, 14, 28, 35, 49, 63, 64])), 64)
+    if ty in ("uint32", "fixed32"):
+        return rng.choice(_U32) if r < 0.7 else rng.getrandbits(rng.choice([7, 14, 21, 28, 32]))
+    if ty in ("uint64", "fixed64"):
+        return rng.choice(_U64) if r < 0.7 else rng.getrandbits(rng.choice([7, 14, 28, 35, 49, 63, 64]))
+    if ty == "bool":
+        return rng.getrandbits(1)
+    if ty == "float":
+        return F32(rng.choice(_F32) if r < 0.6 else rng.getrandbits(32))
+    if ty == "double":
+        return F64(rng.choice(_F64) if r < 0.6 else rng.getrandbits(64))
+    if ty == "string":
+        if r < 0.75:
+            return rng.choice(_STR).encode("utf-8")
+        n = rng.choice([1, 2, 5, 20, 127, 128, 129, 1000])
+        alphabet = "abcXYZ 019_-\"\\\n\téß中文\U0001f600{}[](),:'"
+        return "".join(rng.choice(alphabet) for _ in range(n)).encode("utf-8")
+    if ty == "bytes":
+        if r < 0.6:
+            return rng.choice(_BYTES)
+        n = rng.choice([1, 2, 5, 20, 127, 128, 129, 1000])
+        return bytes(rng.getrandbits(8) for _ in range(n))
+    if ty == "enum":
+        vals = [v for _, v in enum["values"]] if enum else [0, 1]
+        return rng.choice(vals) if r < 0.7 else rng.choice([0, 5, -100, 1000000, (1 << 31) - 1, -(1 << 31), 129])
+    raise ValueError(ty)
+
+
+def gen_value(msg, rng, depth=3, size=1.0):
+    """a random canonical value of msg.  depth bounds the nesting below this message (recursive
+    fields are empty at depth 0); size in (0,1] scales collection sizes"""
+    out = []
+    for sl in msg.slots:
+        out.append(_gen_slot(sl, rng, depth, size))
+    return out
+
+
+def _gen_elem(x, rng, depth, size):
+    if x.ty == "message":
+        return gen_value(x.ref, rng, depth - 1, size * 0.5)
+    return gen_scalar(x.ty, rng, x.enum)
+
+
+def _gen_slot(sl, rng, depth, size):
+    isz = sl.ty == "message"
+    if sl.kind in ("s", "w"):
+        if isz:
+            return gen_value(sl.ref, rng, depth - 1, size * 0.5)      # proto2 required message
+        if rng.random() < 0.15:
+            return scalar_default(sl.ty)
+        return gen_scalar(sl.ty, rng, sl.enum)
+    if sl.kind == "o":
+        if (isz and depth <= 0) or rng.random() < 0.3:
+            return None
+        if not isz and rng.random() < 0.15:
+            return scalar_default(sl.ty)                               # Some(default) is not None
+        return _gen_elem(sl, rng, depth, size)
+    if sl.kind == "r":
+        if isz and depth <= 0:
+            return []
+        n = rng.choice([0, 0, 1, 2, 3, 5, 17] + ([60, 200] if not isz else []))
+        n = max(0 if n == 0 else 1, int(n * size)) if n else 0
+        return [_gen_elem(sl, rng, depth, size) for _ in range(n)]
+    if sl.kind == "m":
+        if isz and depth <= 0:
+            return []
+        n = rng.choice([0, 0, 1, 2, 3, 6] + ([40] if not isz else []))
+        n = max(1, int(n * size)) if n else 0
+        d = {}
+        for _ in range(n):
+            k = scalar_default(sl.kty) if rng.random() < 0.2 else gen_scalar(sl.kty, rng)
+            if isz:
+                v = gen_value(sl.ref, rng, depth - 1, size * 0.5)
+            else:
+                v = scalar_default(sl.ty) if rng.random() < 0.2 else gen_scalar(sl.ty, rng, sl.enum)
+            d[k] = v
+        return sorted(d.items(), key=lambda kv: _key_sort(kv[0]))
+    if sl.kind == "u":
+        choices = [None] + [i for i, m in enumerate(sl.members) if not (m.ty == "message" and depth <= 0)]
+        c = rng.choice(choices)
+        if c is None:
+            return None
+        m = sl.members[c]
+        if m.ty != "message" and rng.random() < 0.15:
+            return (c, scalar_default(m.ty))
+        return (c, _gen_elem(m, rng, depth, size))
+    raise ValueError(sl.kind)
+
+
+def gen_cover(msg, rng, depth=2):
+    """a systematic list of values: the default value, a fully populated one, and for every oneof one
+    value per member"""
+    vals = [default_value(msg)]
+    full = []
+    for sl in msg.slots:
+        v = None
+        for _ in range(20):
+            v = _gen_slot(sl, rng, depth, 1.0)
+            if v not in (None, []):
+                break
+        full.append(v)
+    vals.append(full)
+    for si, sl in enumerate(msg.slots):
+        if sl.kind == "u":
+            for mi, m in enumerate(sl.members):
+                v = default_value(msg)
+                v[si] = (mi, _gen_elem(m, rng, depth, 0.5))
+                vals.append(v)
+    return vals
+
+
+def value_depth(msg, v):
+    """nesting depth of a canonical value (0 = no embedded message present)"""
+    d = 0
+    for sl, x in zip(msg.slots, v):
+        if sl.kind == "u":
+            if x is not None and sl.members[x[0]].ty == "message":
+                d = max(d, 1 + value_depth(sl.members[x[0]].ref, x[1]))
+        elif sl.ty == "message":
+            if sl.kind in ("s", "o"):
+                if x is not None:
+                    d = max(d, 1 + value_depth(sl.ref, x))
+            elif sl.kind == "r":
+                for y in x:
+                    d = max(d, 1 + value_depth(sl.ref, y))
+            elif sl.kind == "m":
+                for _, y in x:
+                    d = max(d, 1 + value_depth(sl.ref, y))
+    return d
+
+
+def positions(msg, v, acc):
+    """counts, in acc[(position, type)], the scalar/enum/message values a canonical value carries;
+    positions: singular optional repeated map-key map-value oneof wrapper"""
+    for sl, x in zip(msg.slots, v):
+        def sub(ref, y):
+            positions(ref, y, acc)
+        def bump(pos, ty, n=1):
+            acc[(pos, ty)] = acc.get((pos, ty), 0) + n
+        if sl.kind in ("s", "w"):
+            bump("singular" if sl.kind == "s" else "wrapper", sl.ty)
+            if sl.ty == "message":
+                sub(sl.ref, x)
+        elif sl.kind == "o":
+            if x is not None:
+                bump("optional", sl.ty)
+                if sl.ty == "message":
+                    sub(sl.ref, x)
+        elif sl.kind == "r":
+            if x:
+                pos = "repeated"
+                if _packable(sl.ty):
+                    pos = "repeated-" + ("packed" if sl.packed_decl else "unpacked") + "-decl"
+                bump(pos, sl.ty, len(x))
+                if sl.ty == "message":
+                    for y in x:
+                        sub(sl.ref, y)
+        elif sl.kind == "m":
+            if x:
+                bump("map-key", sl.kty, len(x))
+                bump("map-value", sl.ty, len(x))
+                if sl.ty == "message":
+                    for _, y in x:
+                        sub(sl.ref, y)
+        elif sl.kind == "u":
+            if x is not None:
+                m = sl.members[x[0]]
+                bump("oneof", m.ty)
+                if m.ty == "message":
+                    sub(m.ref, x[1])
+    return acc
+
+
+# ======================================================================================
+# 5. Rust `{:?}` output of the generated types  ->  generic tree  ->  canonical value
+# ======================================================================================
+#   tree nodes: ("struct", name, [(field, node)]) | ("tuple", name, [node]) | ("unit", name)
+#               ("num", text) | ("str", bytes) | ("bytes", bytes) | ("list", [node]) | ("map", [(node, node)])
+
+class DebugParseError(Exception):
+    pass
+
+
+_NUM = re.compile(r"-?\d+(?:\.\d+)?(?:e[+-]?\d+)?|-?inf|NaN")
+_IDENT = re.compile(r"(?:r#)?[A-Za-z_][A-Za-z0-9_]*")
+_SIMPLE_ESC = {"n": 10, "r": 13, "t": 9, "0": 0, "\\": 92, '"': 34, "'": 39}
+
+
+class _DP:
+    def __init__(self, s):
+        self.s, self.i = s, 0
+
+    def err(self, what):
+        raise DebugParseError("%s at %d: %r" % (what, self.i, self.s[self.i:self.i + 40]))
+
+    def ws(self):
+        while self.i < len(self.s) and self.s[self.i] in " \n":
+            self.i += 1
+
+    def eat(self, c):
+        self.ws()
+        if not self.s.startswith(c, self.i):
+            self.err("expected %r" % c)
+        self.i += len(c)
+
+    def at(self, c):
+        self.ws()
+        return self.s.startswith(c, self.i)
+
+    def string(self, is_bytes):
+        # self.i is just after the opening quote
+        out = bytearray()
+        s = self.s
+        while True:
+            if self.i >= len(s):
+                self.err("unterminated string")
+            ch = s[self.i]
+            if ch == '"':
+                self.i += 1
+                return bytes(out)
+            if ch == "\\":
+                e = s[self.i + 1]
+                if e == "x":
+                    out.append(int(s[self.i + 2:self.i + 4], 16)); self.i += 4
+                elif e == "u":
+                    j = s.index("}", self.i)
+                    cp = int(s[self.i + 3:j], 16)
+                    out += chr(cp).encode("utf-8", "surrogatepass"); self.i = j + 1
+                elif e in _SIMPLE_ESC:
+                    out.append(_SIMPLE_ESC[e]); self.i += 2
+                else:
+                    self.err("unknown escape")
+            else:
+                if is_bytes:
+                    out.append(ord(ch))
+                else:
+                    out += ch.encode("utf-8", "surrogatepass")
+                self.i += 1
+
+    def seq(self, close):
+        items = []
+        while True:
+            if self.at(close):
+                self.i += len(close)
+                return items
+            items.append(self.value())
+            if self.at(","):
+                self.i += 1
+
+    def value(self):
+        self.ws()
+        s = self.s
+        if self.i >= len(s):
+            self.err("value expected")
+        c = s[self.i]
+        if c == '"':
+            self.i += 1
+            return ("str", self.string(False))
+        if c == "b" and s.startswith('b"', self.i):
+            self.i += 2
+            return ("bytes", self.string(True))
+        if c == "[":
+            self.i += 1
+            return ("list", self.seq("]"))
+        if c == "(":
+            self.i += 1
+            items = self.seq(")")
+            return ("unit", "()") if not items else ("tuple", "", items)
+        if c == "{":
+            self.i += 1
+            items = []
+            while True:
+                if self.at("}"):
+                    self.i += 1
+                    return ("map", items)
+                k = self.value()
+                self.eat(":")
+                v = self.value()
+                items.append((k, v))
+                if self.at(","):
+                    self.i += 1
+        m = _NUM.match(s, self.i)
+        if m:
+            self.i = m.end()
+            return ("num", m.group(0))
+        m = _IDENT.match(s, self.i)
+        if not m:
+            self.err("value expected")
+        name = m.group(0)
+        self.i = m.end()
+        if s.startswith("(", self.i):
+            self.i += 1
+            return ("tuple", name, self.seq(")"))
+        if s.startswith(" {", self.i):
+            self.i += 2
+            fields = []
+            while True:
+                if self.at("}"):
+                    self.i += 1
+                    return ("struct", name, fields)
+                fm = _IDENT.match(s, self.i)
+                if not fm:
+                    self.err("field name expected")
+                self.i = fm.end()
+                self.eat(":")
+                fields.append((fm.group(0), self.value()))
+                if self.at(","):
+                    self.i += 1
+        return ("unit", name)
+
+
+def parse_debug(text):
+    """generic tree of one `{:?}` rendering (single-line form)"""
+    p = _DP(text)
+    v = p.value()
+    p.ws()
+    if p.i != len(text):
+        p.err("trailing text")
+    return v
+
+
+def _float_bits(text, width):
+    """bits of the float the decimal text denotes (correctly rounded, no double rounding)"""
+    if text == "NaN":
+        return 0x7fc00000 if width == 32 else 0x7ff8000000000000
+    if text in ("inf", "-inf"):
+        b = 0x7f800000 if width == 32 else 0x7ff0000000000000
+        return b | ((1 << (width - 1)) if text[0] == "-" else 0)
+    x = float(text)              # correctly rounded to f64
+    if width == 64:
+        return struct.unpack("<Q", struct.pack("<d", x))[0]
+    try:
+        b = struct.unpack("<I", struct.pack("<f", x))[0]
+    except OverflowError:
+        b = 0x7f800000 | (0x80000000 if x < 0 else 0)
+    # f64 -> f32 rounds a second time: pick the nearest f32 to the exact decimal among the neighbours
+    exact = Fraction(text)
+    best, bestd = b, None
+    for cand in (b - 1, b, b + 1):
+        if cand < 0 or (cand & 0x7fffffff) > 0x7f800000:
+            continue
+        if (cand & 0x7fffffff) == 0x7f800000:
+            continue
+        val = Fraction(struct.unpack("<f", struct.pack("<I", cand))[0])
+        d = abs(val - exact)
+        if bestd is None or d < bestd or (d == bestd and (cand & 1) == 0):
+            best, bestd = cand, d
+    if text.startswith("-") and (best & 0x7fffffff) == 0:
+        best = 0x80000000
+    return best
+
+
+def _norm_name(s):
+    return s.replace("_", "").replace("r#", "").lower()
+
+
+def _scalar_from_tree(ty, t):
+    if ty in ("float", "double"):
+        if t[0] != "num":
+            raise DebugParseError("float expected, got %r" % (t,))
+        w = 32 if ty == "float" else 64
+        return ("f", w, _float_bits(t[1], w))
+    if ty == "bool":
+        if t[0] != "unit" or t[1] not in ("true", "false"):
+            raise DebugParseError("bool expected, got %r" % (t,))
+        return 1 if t[1] == "true" else 0
+    if ty == "string":
+        if t[0] != "str":
+            raise DebugParseError("string expected, got %r" % (t,))
+        return t[1]
+    if ty == "bytes":
+        if t[0] == "bytes":
+            return t[1]
+        if t[0] == "list":                    # Vec<u8>
+            return bytes(int(x[1]) for x in t[1])
+        raise DebugParseError("bytes expected, got %r" % (t,))
+    if ty == "enum":
+        if t[0] != "tuple" or len(t[2]) != 1 or t[2][0][0] != "num":
+            raise DebugParseError("enum newtype expected, got %r" % (t,))
+        return int(t[2][0][1])
+    if t[0] != "num":
+        raise DebugParseError("integer expected, got %r" % (t,))
+    return int(t[1])
+
+
+def _elem_from_tree(x, t):
+    if x.ty == "message":
+        return debug_to_canon(x.ref, t)
+    return _scalar_from_tree(x.ty, t)
+
+
+def debug_to_canon(msg, tree):
+    """canonical value of the tree parse_debug produced for a value of msg's generated type.
+    Box is transparent in {:?}; hash maps come out sorted by key; a NaN gets the canonical quiet NaN
+    bits (compare() treats all NaNs alike)."""
+    if msg.wrapper is not None:
+        if not msg.slots:
+            if tree != ("unit", "()"):
+                raise DebugParseError("() expected")
+            return []
+        return [_scalar_from_tree(msg.slots[0].ty, tree)]
+    if tree[0] == "unit" and not msg.slots:
+        return []
+    if tree[0] != "struct":
+        raise DebugParseError("struct %s expected, got %r" % (msg.name, tree[:2]))
+    fields = tree[2]
+    if len(fields) != len(msg.slots):
+        raise DebugParseError("%s: %d fields rendered, %d slots in the schema" % (msg.name, len(fields), len(msg.slots)))
+    out = []
+    for sl, (fname, t) in zip(msg.slots, fields):
+        if _norm_name(fname) != _norm_name(sl.name):
+            raise DebugParseError("%s: field %s rendered where the schema has %s" % (msg.name, fname, sl.name))
+        if sl.kind == "s":
+            out.append(_elem_from_tree(sl, t))
+        elif sl.kind == "o":
+            if t == ("unit", "None"):
+                out.append(None)
+            elif t[0] == "tuple" and t[1] == "Some" and len(t[2]) == 1:
+                out.append(_elem_from_tree(sl, t[2][0]))
+            else:
+                raise DebugParseError("Option expected for %s" % sl.name)
+        elif sl.kind == "r":
+            if t[0] != "list":
+                raise DebugParseError("Vec expected for %s" % sl.name)
+            out.append([_elem_from_tree(sl, y) for y in t[1]])
+        elif sl.kind == "m":
+            if t[0] != "map":
+                raise DebugParseError("map expected for %s" % sl.name)
+            items = [(_scalar_from_tree(sl.kty, k), _elem_from_tree(sl, v)) for k, v in t[1]]
+            items.sort(key=lambda kv: _key_sort(kv[0]))
+            for a, b in zip(items, items[1:]):
+                if a[0] == b[0]:
+                    raise DebugParseError("duplicate key rendered in map %s" % sl.name)
+            out.append(items)
+        elif sl.kind == "u":
+            if t == ("unit", "None"):
+                out.append(None)
+                continue
+            if not (t[0] == "tuple" and t[1] == "Some" and len(t[2]) == 1 and t[2][0][0] == "tuple" and len(t[2][0][2]) == 1):
+                raise DebugParseError("Option<oneof> expected for %s" % sl.name)
+            var = t[2][0]
+            for mi, m in enumerate(sl.members):
+                if _norm_name(m.name) == _norm_name(var[1]):
+                    out.append((mi, _elem_from_tree(m, var[2][0])))
+                    break
+            else:
+                raise DebugParseError("unknown oneof variant %s in %s" % (var[1], sl.name))
+    return out
+
+
+# ======================================================================================
+# 6. glue for the extracted Coq model runner
+# ======================================================================================
+
+def _model_ty(x):
+    return "M%d" % x.ref.idx if x.ty == "message" else x.ty
+
+
+def model_schema_text(corpus, include_wrappers=False):
+    """one line per message in global index order:  M <idx> <nfields> <field>*   with <field> =
+    s <tag> <ty> | o <tag> <ty> | r <tag> <ty> | m <tag> <kty> <ty> | u <n> (<tag> <ty>){n}
+    (struct order; <ty> a declared scalar type name, `enum`, or M<idx>).
+    include_wrappers adds the pseudo messages as  M <idx> 1 w 1 <ty>  (value bare, the encoder omits
+    the default) and  M <idx> 0  for ()."""
+    lines = []
+    for m in corpus:
+        if m.wrapper is not None and not include_wrappers:
+            continue
+        parts = ["M", str(m.idx), str(len(m.slots))]
+        for sl in m.slots:
+            if sl.kind == "m":
+                parts += ["m", str(sl.number), sl.kty, _model_ty(sl)]
+            elif sl.kind == "u":
+                parts += ["u", str(len(sl.members))]
+                for mem in sl.members:
+                    parts += [str(mem.number), _model_ty(mem)]
+            else:
+                parts += [sl.kind, str(sl.number), _model_ty(sl)]
+        lines.append(" ".join(parts))
+    return "\n".join(lines) + "\n"
+
+
+def _model_scalar(ty, tok):
+    if ty in ("string", "bytes"):
+        if not tok.startswith("b"):
+            raise ValueError("byte string token expected, got " + tok)
+        return b"" if tok == "b-" else bytes.fromhex(tok[1:])
+    if not tok.startswith("i"):
+        raise ValueError("integer token expected, got " + tok)
+    n = int(tok[1:])
+    if ty == "float":
+        return F32(n)
+    if ty == "double":
+        return F64(n)
+    return n
+
+
+def parse_model_value(msg, tokens):
+    """canonical value from the model's `<value>` tokens (a list of strings, or one string)"""
+    if isinstance(tokens, str):
+        tokens = tokens.split()
+    v, i = _pmv(msg, tokens, 0)
+    if i != len(tokens):
+        raise ValueError("trailing model tokens: " + " ".join(tokens[i:i + 5]))
+    return v
+
+
+def _pmv_elem(x, t, i):
+    if x.ty == "message":
+        return _pmv(x.ref, t, i)
+    return _model_scalar(x.ty, t[i]), i + 1
+
+
+def _pmv(msg, t, i):
+    if msg.wrapper is not None and msg.slots and t[i] != "{":
+        v, i = _pmv_elem(msg.slots[0], t, i)          # a wrapper may be rendered as its bare value
+        return [v], i
+    if t[i] != "{":
+        raise ValueError("{ expected, got " + t[i])
+    i += 1
+    out = []
+    for sl in msg.slots:
+        if sl.kind in ("s", "w"):
+            v, i = _pmv_elem(sl, t, i)
+        elif sl.kind == "o":
+            if t[i] == "N":
+                v, i = None, i + 1
+            elif t[i] == "S":
+                v, i = _pmv_elem(sl, t, i + 1)
+            else:
+                raise ValueError("N or S expected, got " + t[i])
+        elif sl.kind == "r":
+            if t[i] != "[":
+                raise ValueError("[ expected, got " + t[i])
+            i += 1
+            v = []
+            while t[i] != "]":
+                x, i = _pmv_elem(sl, t, i)
+                v.append(x)
+            i += 1
+        elif sl.kind == "m":
+            if t[i] != "<":
+                raise ValueError("< expected, got " + t[i])
+            i += 1
+            d = []
+            while t[i] != ">":
+                k = _model_scalar(sl.kty, t[i])
+                x, i = _pmv_elem(sl, t, i + 1)
+                d.append((k, x))
+            i += 1
+            d.sort(key=lambda kv: _key_sort(kv[0]))
+            v = d
+        elif sl.kind == "u":
+            if t[i] == "N":
+                v, i = None, i + 1
+            elif t[i].startswith("O"):
+                mi = int(t[i][1:])
+                x, i = _pmv_elem(sl.members[mi], t, i + 1)
+                v = (mi, x)
+            else:
+                raise ValueError("N or O<k> expected, got " + t[i])
+        out.append(v)
+    if t[i] != "}":
+        raise ValueError("} expected, got " + t[i])
+    return out, i + 1
+
+
+def model_value_tokens(msg, v):
+    """inverse of parse_model_value (used by the self test and handy for debugging the model)"""
+    out = []
+    def sc(ty, x):
+        if ty in ("string", "bytes"):
+            return "b" + (x.hex() if x else "-")
+        if ty in ("float", "double"):
+            return "i%d" % x[2]
+        return "i%d" % x
+    def el(s, x):
+        if s.ty == "message":
+            out.extend(model_value_tokens(s.ref, x))
+        else:
+            out.append(sc(s.ty, x))
+    out.append("{")
+    for sl, x in zip(msg.slots, v):
+        if sl.kind in ("s", "w"):
+            el(sl, x)
+        elif sl.kind == "o":
+            if x is None:
+                out.append("N")
+            else:
+                out.append("S"); el(sl, x)
+        elif sl.kind == "r":
+            out.append("[")
+            for y in x:
+                el(sl, y)
+            out.append("]")
+        elif sl.kind == "m":
+            out.append("<")
+            for k, y in x:
+                out.append(sc(sl.kty, k)); el(sl, y)
+            out.append(">")
+        elif sl.kind == "u":
+            if x is None:
+                out.append("N")
+            else:
+                out.append("O%d" % x[0]); el(sl.members[x[0]], x[1])
+    out.append("}")
+    return out
+
+
+# ======================================================================================
+# 7. running the driver, judging one line against the reference decoder
+# ======================================================================================
+#   An annotated case line is  "<driver line> ;; k=<kind> [key=value ...]"; the driver (and
+#   strip_ann) ignore everything from ";;" on.  A *case* is one or more annotated lines joined by
+#   "\n"; lines of a case that carry eq=1 must decode to equal values.
+#   kinds:  valid      the bytes come from the reference encoder: pilota must decode them, to the
+#                      value the reference decoder gives, and re-encode to bytes that mean the same
+#           fuzz       arbitrary bytes: no panic, bounded memory; where pilota and the reference
+#                      decoder both accept, they agree; pilota never rejects what the reference accepts
+#           depth      nesting probes: verdict (ok / recursion) must be the reference decoder's
+#           lenprefix  a length prefix exceeding the remaining input: ERR underflow, small peak
+#           reenc      (second pass of C05) pilota's own bytes: decoding them reproduces value and bytes
+
+def hx(b):
+    return b.hex() if b else "-"
+
+
+def unhx(s):
+    return b"" if s == "-" else bytes.fromhex(s)
+
+
+def ann(line, **kw):
+    return line + " ;; " + " ".join("%s=%s" % (k, v) for k, v in kw.items())
+
+
+def strip_ann(line):
+    i = line.find(";;")
+    return line if i < 0 else line[:i].rstrip()
+
+
+def get_ann(line):
+    i = line.find(";;")
+    if i < 0:
+        return {}
+    return dict(t.split("=", 1) for t in line[i + 2:].split() if "=" in t)
+
+
+class Out:
+    """parsed result line of pv-gen-pb"""
+    def __init__(self, text):
+        self.text = text
+        self.status, self.L, self.E, self.P, self.D, self.cls, self.oracle_fail = "CRASH", None, None, None, None, None, None
+        t = text.split(" ", 4)
+        if t[0] == "OK":
+            self.status = "OK"
+            self.L = int(t[1][1:])
+            if len(t) > 2 and t[2].startswith("E"):
+                self.E = unhx(t[2][1:])
+                self.P = int(t[3][1:])
+                rest = t[4] if len(t) > 4 else ""
+            else:                                   # lendelim: OK L<n> P<n>
+                self.P = int(t[2][1:])
+                rest = ""
+            j = rest.rfind("ORACLE-FAIL ")
+            if j >= 0 and (j == 0 or rest[j - 1] == " "):
+                self.oracle_fail = rest[j + len("ORACLE-FAIL "):]
+                rest = rest[:j].rstrip()
+            if rest.startswith("D "):
+                self.D = rest[2:]
+        elif t[0] == "ERR":
+            self.status, self.cls = "ERR", t[1]
+            self.P = int(t[2][1:]) if len(t) > 2 and t[2].startswith("P") else 0
+        elif t[0] in ("PANIC", "BADCASE"):
+            self.status = t[0]
+
+    def canon(self, msg):
+        return debug_to_canon(msg, parse_debug(self.D))
+
+
+def gen_bin_path(feature=None, target=None):
+    """where cargo puts pv-gen-pb (core.build_harness returns the path of pv-harness-pb next to it)"""
+    t = target or os.path.join(CACHE, "target_pb" + ("_edv" if feature == "edv" else ""))
+    return os.path.join(t, "debug", "pv-gen-pb")
+
+
+def build_gen_bins(features=("plain", "edv")):
+    """builds the harness crate once per feature set (own target directories so that both stay
+    warm) through core.build_harness, so PV_REPO redirection applies.  -> (bins dict, log)"""
+    from . import core
+    fam = core.Family("pb")
+    bins, logs = {}, []
+    for f in features:
+        fam2 = core.Family("pb")
+        if f == "edv":
+            fam2.target = fam.target + "_edv"
+        ok, hb, log = core.build_harness(fam=fam2, features="edv" if f == "edv" else None)
+        if ok:
+            bins[f] = os.path.join(os.path.dirname(hb), "pv-gen-pb")
+        else:
+            logs.append("[%s] %s" % (f, log))
+    return bins, "\n".join(logs)
+
+
+def run_driver(binary, lines):
+    from . import core
+    return core.run_lines(binary, [strip_ann(l) for l in lines])
+
+
+_SIZES = {}
+
+
+def driver_sizes(binary, corpus):
+    """size_of of every generated type, for the memory bound"""
+    if binary not in _SIZES:
+        outs = run_driver(binary, ["info %d" % m.idx for m in corpus])
+        sz = {}
+        for m, o in zip(corpus, outs):
+            mm = re.search(r"SIZE (\d+)", o or "")
+            sz[m.idx] = int(mm.group(1)) if mm else 2048
+        _SIZES[binary] = sz
+    return _SIZES[binary]
+
+
+def mem_factor(msg, sizes):
+    """bytes of heap a decoder may legitimately need per input byte: an element of a repeated
+    message / a map entry costs two to four input bytes and size_of::<T>() in memory, growth doubles
+    the allocation and the old block is live during the move"""
+    s = max([sizes.get(m.idx, 0) for m in reachable(msg)] + [8])
+    return max(64, 6 * s)
+
+
+def mem_bound(msg, sizes, nbytes):
+    return mem_factor(msg, sizes) * nbytes + 65536
+
+
+def _fix_negzero(msg, v):
+    """the value with -0.0 replaced by +0.0 in float/double MAP VALUES (what pilota's encoder without
+    pb-encode-default-value makes of them: `val == default` is true for -0.0) and in the f32/f64
+    wrapper pseudo messages (`*self != 0.0` is false for -0.0)"""
+    out = []
+    ch = False
+    for sl, x in zip(msg.slots, v):
+        if sl.kind == "w" and sl.ty in ("float", "double") and x[2] == (1 << (x[1] - 1)):
+            out.append(("f", x[1], 0)); ch = True
+        elif sl.kind == "m":
+            items = []
+            for k, y in x:
+                if sl.ty in ("float", "double") and y[2] == (1 << (y[1] - 1)):
+                    y = ("f", y[1], 0); ch = True
+                elif sl.ty == "message":
+                    y, c2 = _fix_negzero(sl.ref, y); ch |= c2
+                items.append((k, y))
+            out.append(items)
+        elif sl.kind == "u" and x is not None and sl.members[x[0]].ty == "message":
+            y, c2 = _fix_negzero(sl.members[x[0]].ref, x[1]); ch |= c2
+            out.append((x[0], y))
+        elif sl.ty == "message" and x is not None:
+            if sl.kind == "r":
+                ys = []
+                for y in x:
+                    y, c2 = _fix_negzero(sl.ref, y); ch |= c2
+                    ys.append(y)
+                out.append(ys)
+            else:
+                y, c2 = _fix_negzero(sl.ref, x); ch |= c2
+                out.append(y)
+        else:
+            out.append(x)
+    return out, ch
+
+
+def _line_input(corpus, line):
+    """(cmd, msg, data bytes or (a, b), reference verdict)"""
+    t = strip_ann(line).split()
+    cmd = t[0]
+    if cmd == "lendelim":
+        data = unhx(t[1])
+        try:
+            ref = ("ok", _Rd(data).varint())
+        except RefError as e:
+            ref = ("err", e.cls)
+        return cmd, None, data, ref
+    msg = corpus[int(t[1])]
+    if cmd in ("dec", "decq"):
+        data = unhx(t[2])
+        return cmd, msg, data, ref_try(msg, data)
+    if cmd in ("merge", "mergeq"):
+        a, b = unhx(t[2]), unhx(t[3])
+        r1 = ref_try(msg, a)
+        if r1[0] == "ok":
+            r1 = ref_try(msg, b, into=r1[1])
+        return cmd, msg, (a, b), r1
+    if cmd == "declen":
+        data = unhx(t[2])
+        try:
+            rd = _Rd(data)
+            n = rd.varint()
+            body = rd.take(n)
+            ref = ref_try(msg, body)
+        except RefError as e:
+            ref = ("err", e.cls)
+        return cmd, msg, data, ref
+    raise ValueError("unknown command in case line: " + cmd)
+
+
+def judge(corpus, sizes, line, out_text, feature="plain"):
+    """None, or (class, why): the verdict of the property oracles on ONE annotated line, from the
+    implementation's output and the reference decoder alone"""
+    a = get_ann(line)
+    kind = a.get("k", "fuzz")
+    o = Out(out_text)
+    if o.status in ("CRASH", "PANIC", "BADCASE"):
+        return ("panic" if o.status == "PANIC" else o.status.lower(), "the driver answered: " + out_text[:200])
+    cmd, msg, data, ref = _line_input(corpus, line)
+    nbytes = len(data) if isinstance(data, bytes) else len(data[0]) + len(data[1])
+    if cmd == "lendelim":
+        if ref[0] == "ok":
+            if o.status != "OK" or o.L != ref[1]:
+                return ("lendelim", "length delimiter %d expected, got %s" % (ref[1], out_text[:80]))
+        elif o.status != "ERR":
+            return ("lendelim", "malformed length delimiter (%s) accepted: %s" % (ref[1], out_text[:80]))
+        if o.P is not None and o.P > 4096:
+            return ("memory", "decode_length_delimiter allocated %d bytes" % o.P)
+        return None
+    # memory: every kind
+    if o.P is not None and o.P > mem_bound(msg, sizes, nbytes):
+        return ("memory", "peak %d bytes of heap for %d input bytes (bound %d*len+65536)" % (o.P, nbytes, mem_factor(msg, sizes)))
+    if o.status == "OK":
+        if o.oracle_fail:
+            return ("encode-apis-disagree", o.oracle_fail[:300])
+        if o.L != len(o.E):
+            return ("encoded-len", "encoded_len() = %d but %d bytes were written" % (o.L, len(o.E)))
+    if kind == "lenprefix":
+        if not (o.status == "ERR" and o.cls == "underflow"):
+            return ("lenprefix", "a length prefix beyond the end of the input must give ERR underflow, got " + out_text[:120])
+        if a.get("small") == "1" and o.P > 4096:
+            # nothing but the oversized prefix in the input: whatever is allocated is allocated for it
+            return ("lenprefix-memory", "%d bytes allocated before the oversized length prefix was rejected" % o.P)
+        return None
+    if kind == "depth":
+        if ref[0] == "err" and ref[1] != "recursion":
+            return ("ref-bug", "depth probe is malformed for the reference decoder: " + ref[1])
+        if ref[0] == "err":
+            if not (o.status == "ERR" and o.cls == "recursion"):
+                return ("recursion-limit", "nesting beyond %d must give ERR recursion, got %s" % (RECURSION_LIMIT, out_text[:120]))
+            return None
+        if o.status != "OK":
+            return ("recursion-limit-early", "nesting within the limit of %d rejected: %s" % (RECURSION_LIMIT, out_text[:120]))
+    if kind in ("valid", "reenc", "unk-at-limit"):
+        if ref[0] != "ok":
+            return ("ref-bug", "the reference decoder rejects its own encoder's bytes: " + ref[1])
+        if o.status != "OK":
+            cls = "unknown-at-depth-limit" if kind == "unk-at-limit" else "rejects-valid"
+            return (cls, "a valid encoding is rejected: " + out_text[:120])
+    if o.status == "ERR":
+        if ref[0] == "ok" and kind == "fuzz":
+            return ("rejects-valid", "the reference decoder accepts these bytes, pilota says " + out_text[:80])
+        return None
+    # o.status == OK from here on
+    if ref[0] == "err":
+        if kind == "fuzz":
+            return None            # leniency is not part of these properties (counted by the callers)
+        return ("accepts-invalid", "reference verdict %s, pilota decoded a value" % ref[1])
+    want = ref[1]
+    if o.D is not None:
+        try:
+            got = o.canon(msg)
+        except DebugParseError as e:
+            return ("debug-parse", "cannot interpret the {:?} rendering: %s" % e)
+        d = compare(want, got)
+        if d:
+            return ("decode-value", "decoded value differs from the reference decoder's at %s" % d)
+    # out direction: pilota's bytes, read by the reference decoder
+    back = ref_try(msg, o.E)
+    if back[0] != "ok":
+        return ("encode-invalid", "pilota's encoding is rejected by the reference decoder: " + back[1])
+    d = _cmp_strict(want, back[1])
+    if d:
+        fixed, changed = _fix_negzero(msg, want)
+        if changed and msg.wrapper is not None and _cmp_strict(fixed, back[1]) is None:
+            return ("wrapper-negzero-default", "the %s wrapper leaves -0.0 off the wire, it reads back as +0.0" % msg.wrapper)
+        if changed and feature != "edv" and _cmp_strict(fixed, back[1]) is None:
+            return ("map-negzero-default", "a -0.0 map value is left off the wire and reads back as +0.0 (%s)" % d)
+        return ("encode-value", "pilota's encoding of the decoded value means something else at %s" % d)
+    return None
+
+
+def _cmp_strict(a, b):
+    """bit-exact comparison (NaN payloads included): both sides come from wire bytes"""
+    if a == b:
+        return None
+    return compare(a, b) or "NaN payload differs"
+
+
+def _same_value(corpus, l1, o1, l2, o2):
+    """cross-line check: the two lines decode to equal values (compared through {:?} if rendered,
+    else through the reference decoding of the re-encoded bytes)"""
+    a, b = Out(o1), Out(o2)
+    if a.status != b.status:
+        return "one is %s the other %s" % (a.status, b.status)
+    if a.status != "OK":
+        return None
+    msg = corpus[int(strip_ann(l1).split()[1])]
+    try:
+        if a.D is not None and b.D is not None:
+            return compare(a.canon(msg), b.canon(msg))
+        return compare(ref_decode(msg, a.E), ref_decode(msg, b.E))
+    except (DebugParseError, RefError) as e:
+        return "cannot compare: %s" % e
+
+
+def run_cases(corpus, gen_bins, cases, reenc=False):
+    """runs every case (one or more "\\n"-joined annotated lines) on every build.
+    -> (failing [(case, why, impl_output)], outputs {feature: {case_index: [out lines]}})"""
+    flat, owner = [], []
+    for ci, c in enumerate(cases):
+        for l in c.split("\n"):
+            flat.append(l); owner.append(ci)
+    failing, outputs = [], {}
+    for feat, b in gen_bins.items():
+        sizes = driver_sizes(b, corpus)
+        outs = run_driver(b, flat)
+        per = {}
+        for l, o, ci in zip(flat, outs, owner):
+            per.setdefault(ci, []).append((l, o))
+        outputs[feat] = per
+        bad = set()
+        for ci, los in per.items():
+            for l, o in los:
+                v = judge(corpus, sizes, l, o, feat)
+                if v:
+                    failing.append((cases[ci], "%s: %s [%s build]" % (v[0], v[1], feat), o[:2000]))
+                    bad.add(ci)
+                    break
+            if ci in bad:
+                continue
+            eq = [(l, o) for l, o in los if get_ann(l).get("eq") == "1"]
+            for l, o in eq[1:]:
+                d = _same_value(corpus, eq[0][0], eq[0][1], l, o)
+                if d:
+                    failing.append((cases[ci], "merge-semantics: lines of one case that must decode to the same value differ: %s [%s build]" % (d, feat), o[:2000]))
+                    bad.add(ci)
+                    break
+        if reenc:
+            # second pass: pilota's own bytes decode to the same rendering and the same bytes
+            l2, src = [], []
+            for ci, los in per.items():
+                if ci in bad:
+                    continue
+                for l, o in los:
+                    t = strip_ann(l).split()
+                    oo = Out(o)
+                    if t[0] == "dec" and oo.status == "OK":
+                        l2.append(ann("dec %s %s" % (t[1], hx(oo.E)), k="reenc")); src.append((ci, oo))
+            outs2 = run_driver(b, l2)
+            for l, o, (ci, first) in zip(l2, outs2, src):
+                v = judge(corpus, sizes, l, o, feat)
+                o2 = Out(o)
+                why = None
+                if v and v[0] not in ("map-negzero-default", "wrapper-negzero-default"):
+                    why = "%s: %s" % v
+                elif o2.status == "OK":
+                    if o2.E != first.E and not _has_multi_map(corpus[int(l.split()[1])], first):
+                        why = "reencode-unstable: encode(decode(E)) != E"
+                    elif len(o2.E) != len(first.E):
+                        why = "reencode-unstable: encode(decode(E)) has another length than E"
+                    elif v is None and o2.D != first.D and not _has_multi_map(corpus[int(l.split()[1])], first):
+                        why = "reencode-unstable: decode(E) renders differently from the value E was made from"
+                if why:
+                    failing.append((cases[ci] + "\n" + l, "%s [%s build]" % (why, feat), o[:2000]))
+    return failing, outputs
+
+
+def _has_multi_map(msg, out):
+    """hash map iteration order is not stable across instances: byte/text equality is only required
+    when no map of the value has two or more entries"""
+    try:
+        v = ref_decode(msg, out.E)
+    except RefError:
+        return False
+    return _multi_map(msg, v)
+
+
+def _multi_map(msg, v):
+    for sl, x in zip(msg.slots, v):
+        if sl.kind == "m":
+            if len(x) > 1:
+                return True
+            if sl.ty == "message" and any(_multi_map(sl.ref, y) for _, y in x):
+                return True
+        elif sl.kind == "u":
+            if x is not None and sl.members[x[0]].ty == "message" and _multi_map(sl.members[x[0]].ref, x[1]):
+                return True
+        elif sl.ty == "message" and x is not None:
+            if sl.kind == "r":
+                if any(_multi_map(sl.ref, y) for y in x):
+                    return True
+            elif _multi_map(sl.ref, x):
+                return True
+    return False
+
+
+# ---- model side
+
+_MODEL_L = re.compile(r"^L\d+$")
+
+
+def parse_model_out(msg, text):
+    """dict(status, value, L, E, cls) of the model runner's answer"""
+    t = text.split()
+    r = dict(status="BAD", value=None, L=None, E=None, cls=None, text=text)
+    if not t:
+        return r
+    if t[0] == "OK":
+        i = 1
+        while i < len(t) and not _MODEL_L.match(t[i]):
+            i += 1
+        if i >= len(t):
+            return r
+        r["status"] = "OK"
+        if i > 1 and msg is not None:
+            r["value"] = parse_model_value(msg, t[1:i])
+        r["L"] = int(t[i][1:])
+        for x in t[i + 1:]:
+            if x.startswith("E"):
+                r["E"] = unhx(x[1:])
+    elif t[0] == "ERR":
+        r["status"], r["cls"] = "ERR", t[1] if len(t) > 1 else "?"
+    elif t[0] == "PANIC":
+        r["status"] = "PANIC"
+    return r
+
+
+def compare_model(corpus, line, impl_text, model_text):
+    """None or a description of the disagreement between the model's and the implementation's answer"""
+    t = strip_ann(line).split()
+    msg = corpus[int(t[1])] if t[0] != "lendelim" else None
+    o = Out(impl_text)
+    try:
+        m = parse_model_out(msg, model_text)
+    except (ValueError, IndexError) as e:
+        return "model output not understood: %s" % e
+    if o.status != m["status"]:
+        return "implementation %s, model %s" % (o.status + (" " + o.cls if o.cls else ""), m["status"] + (" " + m["cls"] if m["cls"] else ""))
+    if o.status == "ERR":
+        return None if o.cls == m["cls"] else "error class %s vs model %s" % (o.cls, m["cls"])
+    if o.status != "OK":
+        return None
+    if o.L != m["L"]:
+        return "L %d vs model %d" % (o.L, m["L"])
+    if msg is None:
+        return None
+    try:
+        iv = o.canon(msg) if o.D is not None else ref_decode(msg, o.E)
+    except (DebugParseError, RefError) as e:
+        return "implementation output not understood: %s" % e
+    if m["value"] is not None:
+        d = compare(iv, m["value"])
+        if d:
+            return "value differs at " + d
+    if m["E"] is not None and m["E"] != o.E:
+        # hash map iteration order is the only licence for different bytes
+        try:
+            mv = ref_decode(msg, m["E"])
+        except RefError as e:
+            return "model's E is not valid wire format: %s" % e.cls
+        if len(m["E"]) != len(o.E) or compare(mv, ref_decode(msg, o.E)) or not _multi_map(msg, mv):
+            return "E differs"
+    return None
+
+
+def run_model(corpus, model_runner, cases, outputs, feature_args=None):
+    """feeds the same (stripped) lines to the extracted model; -> mismatches [(case, impl, model, build)]"""
+    if not model_runner or not os.path.exists(model_runner):
+        return []
+    from . import core
+    os.makedirs(CACHE, exist_ok=True)
+    schema = os.path.join(CACHE, "pb_model_schema.txt")
+    with open(schema + ".tmp", "w") as f:
+        f.write(model_schema_text(corpus, include_wrappers=True))
+    os.replace(schema + ".tmp", schema)
+    mism = []
+    for feat, per in outputs.items():
+        args = ["--schema", schema] + (["--edv"] if feat == "edv" else [])
+        flat, idx = [], []
+        for ci in sorted(per):
+            for l, o in per[ci]:
+                flat.append(strip_ann(l)); idx.append((ci, l, o))
+        mouts = core.run_lines(model_runner, flat, args=args)
+        for (ci, l, o), mo in zip(idx, mouts):
+            d = compare_model(corpus, l, o, mo or "")
+            if d:
+                mism.append((l, o[:2000], (mo or "")[:2000] + "   <- " + d, feat))
+    return mism
+
+
+# ======================================================================================
+# 8. case generators and the oracle entry points of the checks
+# ======================================================================================
+
+def _n(tier, quick, thorough=None):
+    return quick if tier == "quick" else (thorough if thorough is not None else quick * 20)
+
+
+def _values(msg, rng, n, depth=3):
+    vals = gen_cover(msg, rng)
+    while len(vals) < n:
+        vals.append(gen_value(msg, rng, rng.choice([0, 1, 2, depth, depth])))
+    return vals
+
+
+def _replay_cases(replay):
+    if "cases" in replay:
+        return ["\n".join(replay["cases"])] if all("\n" not in c for c in replay["cases"]) else list(replay["cases"])
+    return [replay["case"]]
+
+
+def _finish(chk, corpus, gen_bins, model_runner, cases, nontrivial, reenc, dist):
+    failing, outputs = run_cases(corpus, gen_bins, cases, reenc=reenc)
+    mism = run_model(corpus, model_runner, cases, outputs)
+    for c, nt in zip(cases, nontrivial):
+        chk.count(c, nt)
+    for c in (cases[:1] + cases[len(cases) // 2:len(cases) // 2 + 1] + cases[-1:]):
+        chk.sample(c[:300])
+    statuses = {}
+    for feat, per in outputs.items():
+        for los in per.values():
+            for l, o in los:
+                k = o.split(" ", 2)
+                key = k[0] + ((" " + k[1]) if k[0] == "ERR" and len(k) > 1 else "")
+                statuses[key] = statuses.get(key, 0) + 1
+    dist = dict(dist)
+    dist["driver_lines"] = sum(len(c.split("\n")) for c in cases)
+    dist["builds"] = sorted(gen_bins)
+    dist["outcomes"] = statuses
+    chk.cov.setdefault("distribution", {}).update(dist)
+    chk.cov["disagreements_checked"] = chk.cov.get("disagreements_checked", 0) + dist["driver_lines"] * len(gen_bins)
+    return failing, mism, len(cases)
+
+
+def _pos_table(acc):
+    out = {}
+    for (pos, ty), n in sorted(acc.items()):
+        out.setdefault(pos, {})[ty] = n
+    return out
+
+
+REQUIRED_POSITIONS = (
+    [("singular", t) for t in SCALARS + ["enum", "message"]] +
+    [("optional", t) for t in SCALARS + ["enum", "message"]] +
+    [("repeated-packed-decl", t) for t in NUMERIC + ["enum"]] +
+    [("repeated-unpacked-decl", t) for t in NUMERIC + ["enum"]] +
+    [("repeated", t) for t in ["string", "bytes", "message"]] +
+    [("map-key", t) for t in MAP_KEY_TYPES] +
+    [("map-value", t) for t in SCALARS + ["enum", "message"]] +
+    [("oneof", t) for t in SCALARS + ["enum", "message"]])
+
+
+def run_c05(chk, prop, corpus, gen_bins, model_runner, rng, tier, replay=None):
+    """C05 round trip through the generated code: value -> reference encoder (canonical) -> pilota
+    decode -> {:?} == value; pilota's re-encoding E reference-decodes to the value; L == len(E); the
+    encode APIs agree; decoding E with pilota again reproduces the rendering and the bytes.
+    Both feature builds.  -> (failing, mismatches, ncases)"""
+    acc = {}
+    if replay is not None:
+        cases = _replay_cases(replay)
+        nt = [True] * len(cases)
+    else:
+        cases, nt = [], []
+        per = _n(tier, 45, 900)
+        for m in corpus:
+            for v in _values(m, rng, per if m.wrapper is None else max(12, per // 3)):
+                st = rng.choice([CANONICAL, CANONICAL, PILOTA_LIKE])
+                cases.append(ann("dec %d %s" % (m.idx, hx(ref_encode(m, v, rng, st))), k="valid", s=st.name))
+                nt.append(v != default_value(m))
+                positions(m, v, acc)
+    dist = dict(positions=_pos_table(acc), messages=len(corpus),
+                rule_note="k=valid lines + a second pass decoding pilota's own bytes")
+    return _finish(chk, corpus, gen_bins, model_runner, cases, nt, True, dist)
+
+
+def run_c06(chk, prop, corpus, gen_bins, model_runner, rng, tier, replay=None):
+    """C06 interop.  in: every style of the reference encoder (field order shuffled, packed /
+    unpacked / mixed chunks, defaults present or omitted, map entry variations) decodes via pilota to
+    the value.  out: pilota's bytes E reference-decode to the value (part of the verdict on every
+    line).  The per-position counts of every scalar type are recorded in the distribution and
+    positions that were never exercised are listed under positions_missing."""
+    acc, styles = {}, {}
+    if replay is not None:
+        cases = _replay_cases(replay)
+        nt = [True] * len(cases)
+    else:
+        cases, nt = [], []
+        per = _n(tier, 10, 200)
+        for m in corpus:
+            for v in _values(m, rng, per if m.wrapper is None else max(6, per // 3)):
+                positions(m, v, acc)
+                seen = set()
+                for st in STYLES:
+                    e = ref_encode(m, v, rng, st)
+                    if e in seen and st.name != "canonical":
+                        continue                       # this style changes nothing for this value
+                    seen.add(e)
+                    styles[st.name] = styles.get(st.name, 0) + 1
+                    cases.append(ann("dec %d %s" % (m.idx, hx(e)), k="valid", s=st.name))
+                    nt.append(v != default_value(m))
+    missing = ["%s/%s" % p for p in REQUIRED_POSITIONS if not acc.get(p)] if replay is None else []
+    dist = dict(positions=_pos_table(acc), positions_missing=missing, styles=styles, messages=len(corpus))
+    return _finish(chk, corpus, gen_bins, model_runner, cases, nt, False, dist)
+
+
+# ---- C10 inputs
+
+def len_prefix_sites(msg, data, base=0, out=None, depth=0):
+    """(offset, size, value) of the length varint of every LEN record of a VALID encoding, at every
+    nesting level the schema describes"""
+    out = [] if out is None else out
+    rd = _Rd(data)
+    try:
+        while rd.more():
+            n, wt = rd.key()
+            if wt == WT_LEN:
+                p0 = rd.p
+                ln = rd.varint()
+                out.append((base + p0, rd.p - p0, ln))
+                body_at = rd.p
+                body = rd.take(ln)
+                ent = msg.by_number.get(n) if msg is not None else None
+                if ent is not None and depth < 8:
+                    sl = msg.slots[ent[0]]
+                    x = sl.members[ent[1]] if sl.kind == "u" else sl
+                    if sl.kind == "m":
+                        # the entry: value field 2 may be a message
+                        r2 = _Rd(body)
+                        while r2.more():
+                            n2, wt2 = r2.key()
+                            if wt2 == WT_LEN:
+                                q0 = r2.p
+                                l2 = r2.varint()
+                                out.append((base + body_at + q0, r2.p - q0, l2))
+                                b2_at = r2.p
+                                b2 = r2.take(l2)
+                                if n2 == 2 and sl.ty == "message":
+                                    len_prefix_sites(sl.ref, b2, base + body_at + b2_at, out, depth + 1)
+                            else:
+                                _skip(r2, n2, wt2, 50)
+                    elif x.ty == "message":
+                        len_prefix_sites(x.ref, body, base + body_at, out, depth + 1)
+            else:
+                _skip(rd, n, wt, 50)
+    except RefError:
+        pass
+    return out
+
+
+def nest_message(field_path, depth, leaf=b""):
+    """depth levels of embedded messages: field_path is a list of field numbers used cyclically"""
+    body = leaf
+    for i in range(depth - 1, -1, -1):
+        body = enc_tag(field_path[i % len(field_path)], 2) + enc_varint(len(body)) + body
+    return body
+
+
+def nest_map(field, depth, key=b"", leaf=b""):
+    """depth levels of map<_, Msg> entries: field { [key] value(2) = { field {...} } }"""
+    body = leaf
+    for _ in range(depth):
+        val = enc_tag(2, 2) + enc_varint(len(body)) + body
+        entry = key + val
+        body = enc_tag(field, 2) + enc_varint(len(entry)) + entry
+    return body
+
+
+def nest_group(number, depth, leaf=b""):
+    return b"".join(enc_tag(number, 3) for _ in range(depth)) + leaf + b"".join(enc_tag(number, 4) for _ in range(depth))
+
+
+def recursion_paths(corpus):
+    """(msg, kind, field numbers) for every way the corpus can nest without bound"""
+    by = {m.name: m for m in corpus}
+    P = []
+    def add(name, kind, nums):
+        P.append((by[name], kind, nums))
+    add("pv.nest.deep.Tree", "msg", [2])                # optional self
+    add("pv.nest.deep.Tree", "msg", [3])                # repeated self
+    add("pv.nest.deep.Tree", "map", [4])                # map value self
+    add("pv.nest.deep.Ping", "msg", [1, 1])             # Ping.pong / Pong.ping
+    add("pv.nest.deep.Ping", "msg", [3, 1])             # repeated Pong / Pong.ping
+    add("pv.maps.MapVals", "map", [2048])
+    add("Opt2", "msg", [MAX_FIELD])
+    add("pv2.rec.Node", "msg", [3])
+    add("pv2.rec.Node", "msg", [2, 2])                  # edges / Edge.target
+    add("pv2.rec.Node", "map", [5])
+    add("pv2.rec.Chain", "msg", [1, 1])
+    return P
+
+
+def _c10_cases(corpus, rng, tier):
+    cases, kinds = [], {}
+    def add(line, **kw):
+        cases.append(ann(line, **kw))
+        kinds[kw["k"] + ":" + kw.get("g", "")] = kinds.get(kw["k"] + ":" + kw.get("g", ""), 0) + 1
+    msgs = corpus
+    # (a) arbitrary bytes
+    for _ in range(_n(tier, 600)):
+        m = rng.choice(msgs)
+        n = rng.choice([0, 1, 2, 3, 4, 8, 16, 40, 100, 400])
+        add("decq %d %s" % (m.idx, hx(bytes(rng.getrandbits(8) for _ in range(n)))), k="fuzz", g="random")
+    # (b) plausible records: declared field numbers, any wire type, random payloads
+    for _ in range(_n(tier, 600)):
+        m = rng.choice(msgs)
+        nums = list(m.by_number) or [1]
+        b = bytearray()
+        for _ in range(rng.choice([1, 2, 3, 6])):
+            b += enc_tag(rng.choice(nums + [rng.randrange(1, 50)]), rng.choice([0, 1, 2, 2, 2, 3, 4, 5, 6, 7]))
+            b += bytes(rng.getrandbits(8) if rng.random() < 0.7 else rng.choice([0, 1, 0x80, 0xff]) for _ in range(rng.choice([0, 1, 2, 4, 8, 12])))
+        add("decq %d %s" % (m.idx, hx(bytes(b))), k="fuzz", g="records")
+    # (c) mutations of valid encodings
+    for _ in range(_n(tier, 260)):
+        m = rng.choice(msgs)
+        v = gen_value(m, rng, rng.choice([1, 2, 3]), 0.6)
+        e = ref_encode(m, v, rng, rng.choice(STYLES))
+        if not e:
+            continue
+        cmd = rng.choice(["decq", "decq", "decq", "mergeq"])
+        def emit(b, g, k="fuzz"):
+            if cmd == "mergeq":
+                cut = rng.randrange(len(e) + 1)
+                add("mergeq %d %s %s" % (m.idx, hx(e), hx(b)), k=k, g=g)
+            else:
+                add("decq %d %s" % (m.idx, hx(b)), k=k, g=g)
+        if len(e) <= 24:
+            for i in range(len(e)):
+                emit(e[:i], "truncate")
+        else:
+            for i in sorted(rng.sample(range(len(e)), 6)):
+                emit(e[:i], "truncate")
+        for _ in range(4):
+            b = bytearray(e)
+            for _ in range(rng.choice([1, 1, 2, 3])):
+                b[rng.randrange(len(b))] ^= 1 << rng.randrange(8)
+            emit(bytes(b), "bitflip")
+        b = bytearray(e); b[rng.randrange(len(b))] = rng.choice([0, 0x7f, 0x80, 0xff]); emit(bytes(b), "byte")
+        i = rng.randrange(len(e) + 1); emit(e[:i] + bytes(rng.getrandbits(8) for _ in range(rng.choice([1, 2, 5]))) + e[i:], "insert")
+        sites = len_prefix_sites(m, e)
+        for (off, sz, ln) in (rng.sample(sites, min(3, len(sites)))):
+            remaining = len(e) - (off + sz)
+            for newlen in (ln + 1, max(0, ln - 1), rng.choice([0, 127, 128])):
+                emit(e[:off] + enc_varint(newlen) + e[off + sz:], "len-off-by")
+            for newlen in (remaining + 1, rng.choice([(1 << 31) - 1, 1 << 31, 1 << 32, (1 << 35) + 3, 1 << 63, M64])):
+                if cmd == "decq":
+                    # the rest of the input is shorter than the prefix claims -> underflow, nothing copied
+                    add("decq %d %s" % (m.idx, hx(e[:off] + enc_varint(newlen) + e[off + sz:])), k="lenprefix", g="len-beyond-end")
+    # a lone length prefix with nothing (or too little) behind it, for every LEN-typed field
+    for m in msgs:
+        for num, (si, mi) in sorted(m.by_number.items()):
+            sl = m.slots[si]
+            x = sl.members[mi] if sl.kind == "u" else sl
+            if sl.kind == "m" or x.ty in ("string", "bytes", "message") or (sl.kind == "r" and _packable(sl.ty)):
+                for claim, have in ((1, 0), (5, 4), (M32, 3), (M64, 0)):
+                    add("decq %d %s" % (m.idx, hx(enc_tag(num, 2) + enc_varint(claim) + b"\x00" * have)), k="lenprefix", g="lone-prefix", small=1)
+        add("decq %d %s" % (m.idx, hx(enc_tag(MAX_FIELD - 1 if (MAX_FIELD - 1) not in m.by_number else 77, 2) + enc_varint(1 << 40))), k="lenprefix", g="unknown-prefix", small=1)
+        add("declen %d %s" % (m.idx, hx(enc_varint(rng.choice([1, 200, 1 << 33])))), k="lenprefix", g="declen-prefix", small=1)
+    # (d) nesting depth 1..300
+    depths = sorted(set([1, 2, 3, 49, 50, 51, 52, 98, 99, 100, 101, 102, 103, 150, 199, 200, 201, 299, 300] +
+                        [rng.randrange(1, 301) for _ in range(_n(tier, 10, 120))]))
+    if tier != "quick":
+        depths = list(range(1, 301))
+    for (m, kind, nums) in recursion_paths(corpus):
+        for d in depths:
+            if kind == "msg":
+                b = nest_message(nums, d)
+            else:
+                b = nest_map(nums[0], d)
+            add("decq %d %s" % (m.idx, hx(b)), k="depth", g=kind, d=d)
+    for m in rng.sample(msgs, _n(tier, 5, len(msgs))):
+        unk = next(n for n in (9, 77, 1234, MAX_FIELD - 3) if n not in m.by_number)
+        for d in depths:
+            add("decq %d %s" % (m.idx, hx(nest_group(unk, d))), k="depth", g="group", d=d)
+    # groups below messages: the budget is shared
+    tree = msg_by_name(corpus, "pv.nest.deep.Tree")
+    for a in (1, 30, 50, 99, 100):
+        for g in (1, 2, 50, 51, 70, 71, 100 - a, 101 - a, 102 - a, 200):
+            if g > 0:
+                add("decq %d %s" % (tree.idx, hx(nest_message([2], a, nest_group(77, g)))), k="depth", g="msg+group", d=a + g)
+    # (e) length-delimited framing
+    for _ in range(_n(tier, 150)):
+        m = rng.choice(msgs)
+        v = gen_value(m, rng, 2, 0.5)
+        e = ref_encode(m, v, rng)
+        add("declen %d %s" % (m.idx, hx(enc_varint(len(e)) + e + bytes(rng.getrandbits(8) for _ in range(rng.choice([0, 0, 3]))))), k="fuzz", g="declen-valid")
+        add("declen %d %s" % (m.idx, hx(enc_varint(len(e) + rng.choice([1, 2, 1000])) + e)), k="lenprefix", g="declen-short")
+        add("declen %d %s" % (m.idx, hx(bytes(rng.getrandbits(8) for _ in range(rng.choice([0, 1, 3, 10, 30]))))), k="fuzz", g="declen-random")
+    for _ in range(_n(tier, 120)):
+        n = rng.choice([0, 1, 2, 5, 9, 10, 11, 12])
+        b = bytes((rng.getrandbits(8) | (0x80 if rng.random() < 0.7 else 0)) for _ in range(n))
+        add("lendelim %s" % hx(b), k="fuzz", g="lendelim")
+    for b in (b"", b"\x00", b"\x7f", b"\x80", b"\x80\x01", b"\xff" * 9 + b"\x01", b"\xff" * 9 + b"\x02", b"\xff" * 10, b"\x80" * 9 + b"\x00",
+              b"\x80" * 10 + b"\x00", b"\xff" * 9 + b"\x7f", b"\x80\x80\x80\x80\x80\x80\x80\x80\x80\x01", enc_varint(M64), enc_varint(1 << 63)):
+        add("lendelim %s" % hx(b), k="fuzz", g="lendelim")
+    return cases, kinds
+
+
+def run_c10(chk, prop, corpus, gen_bins, model_runner, rng, tier, replay=None):
+    """C10 totality / boundedness of the generated decoders: arbitrary bytes, truncations, bit
+    flips, length-prefix corruptions of valid encodings, nesting depth 1..300 (messages, map-value
+    messages, unknown groups, mixed), length-delimited framing.  Never PANIC / crash, peak heap
+    <= K*len + 65536 (K = max(64, 6 * largest reachable size_of)), nesting beyond 100 -> ERR recursion
+    (and within 100 accepted), a length prefix beyond the end of the input -> ERR underflow (peak
+    <= 4096 when the input is nothing but the prefix)."""
+    if replay is not None:
+        cases = _replay_cases(replay)
+        kinds = {}
+    else:
+        cases, kinds = _c10_cases(corpus, rng, tier)
+    nt = [len(strip_ann(c)) > 12 for c in cases]
+    failing, mism, n = _finish(chk, corpus, gen_bins, model_runner, cases, nt, False, dict(kinds=kinds))
+    return failing, mism, n
+
+
+# ---- C18
+
+def _c18_cases(corpus, rng, tier):
+    cases, kinds = [], {}
+    def add(lines, g):
+        cases.append("\n".join(lines))
+        kinds[g] = kinds.get(g, 0) + 1
+    per = _n(tier, 14, 280)
+    for m in corpus:
+        for _ in range(per if m.wrapper is None else max(4, per // 4)):
+            d = rng.choice([0, 1, 2, 3])
+            x, y = gen_value(m, rng, d, 0.6), gen_value(m, rng, d, 0.6)
+            sx, sy = rng.choice([CANONICAL, PILOTA_LIKE, STYLE_BY_NAME["wild"]]), rng.choice([CANONICAL, PILOTA_LIKE, STYLE_BY_NAME["wild"]])
+            rx, ry = ref_records(m, x, rng, sx), ref_records(m, y, rng, sy)
+            e1, e2 = b"".join(b for _, b in rx), b"".join(b for _, b in ry)
+            lines = [ann("dec %d %s" % (m.idx, hx(e1 + e2)), k="valid", eq=1, g="concat"),
+                     ann("merge %d %s %s" % (m.idx, hx(e1), hx(e2)), k="valid", eq=1, g="merge")]
+            # interleavings that keep, per field (per oneof), x's records before y's and each side's order
+            for _ in range(2):
+                il = _interleave_groups([(0, g, b) for g, b in rx] + [(0, g, b) for g, b in ry], rng)
+                lines.append(ann("dec %d %s" % (m.idx, hx(b"".join(b for _, _, b in il))), k="valid", eq=1, g="interleave"))
+            # ... and the same with an unknown field at every record boundary
+            st_u = Style("u", unknowns="all")
+            il = _with_unknowns(m, [b for _, b in rx] + [b for _, b in ry], rng, st_u)
+            lines.append(ann("dec %d %s" % (m.idx, hx(b"".join(il))), k="valid", eq=1, g="concat+unknowns"))
+            add(lines, "pair")
+            # the value-level statement of merge, checked on the reference side (and thereby on pilota)
+            if sy is PILOTA_LIKE or sy is CANONICAL:
+                want = ref_merge_spec(m, x, y, omit_defaults=(sy is CANONICAL))
+                got = ref_decode(m, e1 + e2)
+                dd = compare(want, got)
+                if dd:
+                    raise AssertionError("reference codec inconsistent with ref_merge_spec on %s: %s" % (m.name, dd))
+        # unknown fields at every boundary of every level, single value
+        for _ in range(_n(tier, 6, 120) if m.wrapper is None else 2):
+            x = gen_value(m, rng, rng.choice([1, 2, 3]), 0.5)
+            e = ref_encode(m, x, rng, CANONICAL)
+            eu = ref_encode(m, x, rng, UNKNOWN_ALL)
+            es = ref_encode(m, x, rng, Style("split", split=0.7, order="shuffle"))
+            add([ann("dec %d %s" % (m.idx, hx(e)), k="valid", eq=1, g="plain"),
+                 ann("dec %d %s" % (m.idx, hx(eu)), k="valid", eq=1, g="unknowns-everywhere"),
+                 ann("dec %d %s" % (m.idx, hx(es)), k="valid", eq=1, g="split-embedded"),
+                 ann("merge %d - %s" % (m.idx, hx(eu)), k="valid", eq=1, g="merge-into-default")], "unknowns")
+    # unknown fields right at the nesting limit: level 100 is legal, so an unknown field there must
+    # be skipped like anywhere else
+    tree = msg_by_name(corpus, "pv.nest.deep.Tree")
+    for lvl in (1, 50, 98, 99, 100):
+        for unk in (enc_tag(77, 0) + b"\x05", enc_tag(77, 5) + b"\0\0\0\0", enc_tag(77, 2) + b"\x01x", enc_tag(77, 1) + b"\0" * 8):
+            add([ann("dec %d %s" % (tree.idx, hx(nest_message([2], lvl, enc_tag(1, 0) + b"\x07"))), k="valid", eq=1, g="deep-plain"),
+                 ann("dec %d %s" % (tree.idx, hx(nest_message([2], lvl, unk + enc_tag(1, 0) + b"\x07"))), k="unk-at-limit", eq=1, g="deep-unknown")],
+                "unknown-at-level-%d" % lvl)
+    for lvl in (1, 98, 99, 100):
+        add([ann("dec 0 %s" % hx(nest_group(5, lvl)), k="valid", eq=1, g="groups"),
+             ann("dec 0 %s" % hx(nest_group(5, lvl, enc_tag(6, 0) + b"\x01")), k="unk-at-limit", eq=1, g="groups+scalar")],
+            "scalar-in-group-level-%d" % lvl)
+    return cases, kinds
+
+
+def run_c18(chk, prop, corpus, gen_bins, model_runner, rng, tier, replay=None):
+    """C18 merge semantics: for pairs of values, decode(e1 ++ e2) == merge(decode e1, e2) == the
+    reference decoding (== ref_merge_spec); interleavings that preserve the per-field record order
+    and an unknown field (every wire type, groups included) at every record boundary of every
+    nesting level leave the decoded value unchanged."""
+    if replay is not None:
+        cases, kinds = _replay_cases(replay), {}
+    else:
+        cases, kinds = _c18_cases(corpus, rng, tier)
+    nt = [True] * len(cases)
+    return _finish(chk, corpus, gen_bins, model_runner, cases, nt, False, dict(kinds=kinds))
+
+
+# ======================================================================================
+# 9. self test:  python3 -m pv.pbgen --selftest [--tier quick|thorough] [--seed N]
+# ======================================================================================
+
+class _FakeChk:
+    def __init__(self):
+        self.cov = dict(samples=[], distribution={})
+        self.n = 0
+        self.nontrivial = 0
+    def count(self, case, nontrivial=True):
+        self.n += 1
+        self.nontrivial += 1 if nontrivial else 0
+    def sample(self, x):
+        self.cov["samples"].append(x)
+
+
+def selftest(tier="quick", seed=1, build=True, model_runner=None, verbose=True):
+    import time
+    t0 = time.time()
+    stale = schemas_stale()
+    if stale:
+        print("schema JSON out of date (run python3 -m pv.pbgen --write-schemas):", stale)
+        return 1
+    corpus = load_corpus()
+    rng = random.Random(seed)
+    # reference codec against itself and against the model token syntax
+    n = 0
+    for m in corpus:
+        for v in _values(m, rng, 40):
+            for st in STYLES + [UNKNOWN_ALL, PILOTA_LIKE, Style("split", split=0.7)]:
+                d = compare(v, ref_decode(m, ref_encode(m, v, rng, st)))
+                if d:
+                    print("reference codec does not round trip: %s style %s: %s" % (m.name, st.name, d))
+                    return 1
+                n += 1
+            if compare(parse_model_value(m, model_value_tokens(m, v)), v):
+                print("model value syntax does not round trip for", m.name)
+                return 1
+    if verbose:
+        print("reference codec self-consistent on %d encodings (%.1fs)" % (n, time.time() - t0))
+    if build:
+        bins, log = build_gen_bins()
+        if log:
+            print("build failed:\n" + log)
+            return 1
+    else:
+        bins = {f: gen_bin_path(f) for f in ("plain", "edv")}
+    if verbose:
+        print("driver binaries:", bins, "(%.1fs)" % (time.time() - t0))
+    rc = 0
+    for name, fn in (("C05", run_c05), ("C06", run_c06), ("C10", run_c10), ("C18", run_c18)):
+        t1 = time.time()
+        chk = _FakeChk()
+        failing, mism, ncases = fn(chk, name, corpus, bins, model_runner, random.Random(seed), tier, None)
+        classes = {}
+        for c, why, o in failing:
+            k = why.split(":", 1)[0]
+            classes.setdefault(k, []).append((c, why, o))
+        print("%s: %d cases, %d driver lines, %d failing %s, %d model mismatches, %.1fs" % (
+            name, ncases, chk.cov["distribution"].get("driver_lines", 0), len(failing),
+            {k: len(v) for k, v in classes.items()}, len(mism), time.time() - t1))
+        if verbose:
+            d = chk.cov["distribution"]
+            print("   outcomes:", d.get("outcomes"))
+            if d.get("positions_missing"):
+                print("   positions never exercised:", d["positions_missing"])
+            for k, v in classes.items():
+                c, why, o = v[0]
+                print("   e.g. [%s] %s\n        case: %s\n        out:  %s" % (k, why[:300], c[:400].replace("\n", "\n              "), o[:300]))
+            for l, o, mo, feat in mism[:3]:
+                print("   model mismatch [%s]: %s\n      impl  %s\n      model %s" % (feat, l[:200], o[:200], mo[:300]))
+        unexpected = [k for k in classes if k not in KNOWN_DEVIATION_CLASSES]
+        if unexpected:
+            rc = 1
+    print("selftest %s (%.1fs)" % ("FAILED" if rc else "passed (only known deviation classes reported)", time.time() - t0))
+    return rc
+
+
+# deviations of the unchanged tree from the protobuf spec that the oracles report under a stable
+# class name (first word of `why`); the checks map them to known findings
+KNOWN_DEVIATION_CLASSES = {
+    "wrapper-negzero-default": "Message for f32 / f64 (pilota/src/prost/types.rs, FloatValue / DoubleValue) encodes nothing when "
+                               "`*self != 0.0` is false, which it is for -0.0: the sign is lost on a round trip (both feature builds)",
+    "map-negzero-default": "a -0.0 float/double map value is treated as the default and left off the wire "
+                           "(pilota/src/prost/encoding.rs, map encode_with_default: `val == val_default`), so it reads back as +0.0; "
+                           "only without feature pb-encode-default-value",
+    "unknown-at-depth-limit": "skip_field checks the recursion budget for EVERY unknown field, scalars included "
+                              "(pilota/src/prost/encoding.rs skip_field: ctx.limit_reached()?), so an unknown field inside the "
+                              "100th nesting level (which is accepted) is rejected with `recursion limit reached`",
+}
+
+
+def main(argv):
+    import argparse
+    ap = argparse.ArgumentParser(prog="python3 -m pv.pbgen")
+    ap.add_argument("--selftest", action="store_true")
+    ap.add_argument("--write-schemas", action="store_true")
+    ap.add_argument("--model-schema", action="store_true", help="print the schema text for the model runner")
+    ap.add_argument("--list", action="store_true")
+    ap.add_argument("--no-build", action="store_true")
+    ap.add_argument("--tier", default="quick")
+    ap.add_argument("--seed", type=int, default=1)
+    ap.add_argument("--model-runner", default=None)
+    a = ap.parse_args(argv)
+    if a.write_schemas:
+        for f in write_schemas():
+            print("wrote", f)
+        return 0
+    if a.model_schema:
+        sys.stdout.write(model_schema_text(load_corpus(), include_wrappers=True))
+        return 0
+    if a.list:
+        for m in load_corpus():
+            print(m.idx, m.name, m.rust_path, "".join(s.kind for s in m.slots))
+        return 0
+    if a.selftest:
+        return selftest(a.tier, a.seed, build=not a.no_build, model_runner=a.model_runner)
+    ap.print_help()
+    return 2
+
+
+if __name__ == "__main__":
+    sys.exit(main(sys.argv[1:]))
